@@ -1661,7 +1661,7 @@ def write_deps_cache(
         manager.log(f"Error writing fine-grained deps meta JSON file {DEPS_META_FILE}")
         error = True
 
-    if error:
+    if error and manager.options.cache_dir != os.devnull:
         manager.errors.set_file(_cache_dir_prefix(manager.options), None, manager.options)
         manager.error(None, "Error writing fine-grained dependencies cache", blocker=True)
 
@@ -4204,6 +4204,10 @@ def dispatch(
             if not manager.options.fine_grained_incremental:
                 rdeps = generate_deps_for_cache(manager, graph)
                 write_deps_cache(rdeps, manager, graph)
+        if manager.errors.is_blockers():
+            # A failed write above is a blocking error, but no module is left to notice it.
+            manager.log("Bailing due to blocking errors")
+            manager.errors.raise_error()
 
     if manager.options.dump_deps:
         # This speeds up startup a little when not using the daemon mode.
